@@ -240,6 +240,16 @@ pub fn scenarios(prop: &str, tier: &str) -> Vec<Arc<dyn Scenario>> {
                     oracle,
                 ));
             }
+            if prop == "C18" {
+                // tables written without a filter (policy none / expect_point_read_hits on the last level)
+                let mut c1 = cfg_nofilter(keys_ab());
+                c1.restart_interval = 16;
+                let mut c2 = TreeCfg::small(keys_ab());
+                c2.expect_point_read_hits = true;
+                let bd = if quick { bs(2, 2, 0, 1, 0) } else { bs(3, 2, 0, 1, 1) };
+                v.push(std("C18-nofilter", c1, a.clone(), bd, seeds_upto(1), oracle));
+                v.push(std("C18-expect-hits", c2, a.clone(), bd, seeds_upto(1), oracle));
+            }
             if prop == "C20" || prop == "C18" || prop == "C07" {
                 // key-value separated tree as well
                 let (bd, sd) = if quick { (b(2, 2, 0, 1), 1) } else { (b(2, 2, snap, 1), 2) };
@@ -534,6 +544,19 @@ pub fn scenarios(prop: &str, tier: &str) -> Vec<Arc<dyn Scenario>> {
                     maps.push(vec![va, vb]);
                 }
             }
+            {
+                // weak deletes (single-delete discipline): the filter must never be shown one
+                use crate::cfilter::VerdictSpec::*;
+                let mut aw = a.clone();
+                aw.wdel_discipline = true;
+                aw.put_f = false;
+                for m in [vec![ReplaceSmall, Remove], vec![Destroy, ReplaceBig], vec![Keep, RemoveWeak]] {
+                    let mut c = TreeCfg::small(keys_ab());
+                    c.filter_verdicts = Some(m.clone());
+                    let bd = if quick { bs(3, 2, 0, 0, 0) } else { bs(4, 2, 1, 1, 0) };
+                    v.push(std(&format!("C17-weak-{:?}-{:?}", m[0], m[1]), c, aw.clone(), bd, vec![vec![]], OracleKind::C17));
+                }
+            }
             let maps: Vec<_> = if quick { maps.into_iter().step_by(5).collect() } else { maps };
             for (i, m) in maps.iter().enumerate() {
                 let mut c = TreeCfg::small(keys_ab());
@@ -565,6 +588,14 @@ pub fn scenarios(prop: &str, tier: &str) -> Vec<Arc<dyn Scenario>> {
             ab.pnext_big = true;
             let bd = if quick { bs(2, 3, 0, 1, 1) } else { bs(3, 5, 0, 1, 2) };
             v.push(std("C19-blob", TreeCfg::small(keys.clone()).with_blob(16), ab, bd, vec![vec![]], OracleKind::C19));
+            // strictly decreasing key order, tables created fractions of a second apart
+            let mut ad = a.clone();
+            ad.pnext_desc = true;
+            ad.ticks = vec![];
+            ad.ticks_ms = vec![100];
+            ad.fifo_ttls = vec![None];
+            let bd = if quick { bs(3, 5, 0, 0, 1) } else { bs(4, 7, 0, 1, 1) };
+            v.push(std("C19-descending", TreeCfg::small(keys.clone()), ad, bd, vec![vec![]], OracleKind::C19));
         }
         "C08" | "C09" => {
             use crate::blobmc::{Blob, Kind};
